@@ -562,6 +562,13 @@ func (lf *logFile) open(path string, flags int, fsize int64) error {
 		}
 		lf.size.Store(vlogHeaderSize)
 		y.VerifPoint("log.bootstrapped")
+		// Make the directory entry of the new WAL / value log file durable before anything that is
+		// written to the file gets synced and acknowledged. (z.OpenMmapFile does not do it.)
+		if !lf.opt.InMemory {
+			if err := syncDir(filepath.Dir(path)); err != nil {
+				return y.Wrapf(err, "while syncing the directory of %s", path)
+			}
+		}
 
 	} else if ferr != nil {
 		return y.Wrapf(ferr, "while opening file: %s", path)
